@@ -1,7 +1,7 @@
 (* Observation commands of the licence domain (C19).  Definitions only: imports the model and the generated table, no lemma file. *)
 From Coq Require Import List NArith Bool String.
 Import ListNotations.
-Require Import Show LicModel LicTop.
+Require Import Show LicModel LicTop LicSpec LicSpecX SpdxTable.
 Open Scope N_scope.
 
 (* l.canon s  ->  OK|<result>  |  E (InvalidLicenseExpression)  |  L|<result> (nesting depth 101..200: OK|<result> or E, interpreter
@@ -43,8 +43,21 @@ Definition obs_evalsweep (m : N) (prefix : list N) : list N :=
   show_N (N.of_nat (List.length passing)) ++ [58] ++
   map (fun ps => match py_eval ps with EvFalse => 49 | EvBad => 48 | EvLimit => 63 end) passing.
 
+(* l.spec s: the declarative specification LicSpec.spec_canon alone (no model of the code involved; run as LicSpecX.spec_canon_x, proved
+   equal: C19_spec_observation_is_the_specification), for the direct comparison with the harness-side Python reading of the property
+   (harness/gen_lic.py spec):  N = not an expression  |  S|<band>|<canonical text>
+   with band 0 = nesting depth <= 100, 1 = 101..200, 2 = deeper than 200. *)
+Definition obs_spec (s : list N) : list N :=
+  match spec_canon_x licenses exceptions s with
+  | None => asc "N"
+  | Some o =>
+      asc "S|" ++ (if nests_deeper_than 200 (spdx_tokens s) then asc "2" else if nests_deeper_than 100 (spdx_tokens s) then asc "1" else asc "0")
+      ++ asc "|" ++ o
+  end.
+
 Definition run_lic (cmd : list N) (args : list (list N)) : option (list N) :=
   if seqb cmd (asc "l.canon") then Some (obs_canon (nth_str 0 args))
   else if seqb cmd (asc "l.sweep") then Some (obs_sweep (nth_str 0 args) (nth_str 1 args) (parse_N (nth_str 2 args)) (nth_str 3 args) (skipn 4 args))
+  else if seqb cmd (asc "l.spec") then Some (obs_spec (nth_str 0 args))
   else if seqb cmd (asc "l.evalsweep") then Some (obs_evalsweep (parse_N (nth_str 0 args)) (nth_str 1 args))
   else None.
